@@ -9,7 +9,8 @@ type Avoid struct {
 	Snippets        map[string]bool // snippet names in "...:snippet:<a>+<b>" keys
 	SemicolonInList bool            // format-error:unexpected-semicolon:missing-term
 	SemicolonInBody bool            // format-error:unexpected-semicolon:invalid-identifier
-	HeaderLiteral   bool            // any known snippet key about a composite literal in a control header
+	HeaderLiteral   bool            // a known key about a slice/map/struct-typed literal in a control header
+	HeaderNamed     bool            // a known key about a literal of a NAMED type in a control header (range Ints{4, 5})
 	DoubleUnary     bool            // double-unary-minus
 }
 
@@ -26,7 +27,10 @@ func newAvoid(known map[string]bool) Avoid {
 	a.DoubleUnary = a.Snippets["double-unary-minus"]
 
 	for n := range a.Snippets {
-		if headerLiteralSnippets[n] {
+		switch {
+		case n == "for-range-named-type-literal":
+			a.HeaderNamed = true
+		case headerLiteralSnippets[n]:
 			a.HeaderLiteral = true
 		}
 	}
@@ -141,10 +145,17 @@ func (a Avoid) sourceAvoided(src string) string {
 		}
 
 		// a control header with a "{" that is not the last token of its line
-		if a.HeaderLiteral && t.kind == tkIdent && (t.text == "for" || t.text == "if" || t.text == "switch") && (i == 0 || code[i-1].line < t.line || code[i-1].text == "else") {
-			depth, braces := 0, 0
+		if (a.HeaderLiteral || a.HeaderNamed) && t.kind == tkIdent && (t.text == "for" || t.text == "if" || t.text == "switch") && (i == 0 || code[i-1].line < t.line || code[i-1].text == "else") {
+			// the header line ends in the "{" that opens the body and holds another "{"
+			// outside parentheses before it (a one-line body "if x { y }" ends in "}")
+			// The type before an inner "{" tells the two defects apart: "]" or "}" ends a
+			// slice/map/struct type, an identifier is a named type.
+			depth, braces, last := 0, 0, ""
+			typed, named := false, false
 
 			for j := i + 1; j < len(code) && code[j].line == t.line; j++ {
+				last = code[j].text
+
 				switch code[j].text {
 				case "(", "[":
 					depth++
@@ -153,12 +164,29 @@ func (a Avoid) sourceAvoided(src string) string {
 				case "{":
 					if depth == 0 {
 						braces++
+
+						if j+1 < len(code) && code[j+1].line == t.line { // not the body opener
+							// walk back over a possibly qualified element type (pkg.Name); a "]"
+							// before it makes the whole thing a slice or map type ([]int, map[k]v)
+							k := j - 1
+							for k >= 2 && code[k].kind == tkIdent && code[k-1].text == "." && code[k-2].kind == tkIdent {
+								k -= 2
+							}
+
+							if p := code[k]; p.kind == tkIdent && !keywords[p.text] && (k == 0 || code[k-1].text != "]") {
+								named = true
+							} else {
+								typed = true
+							}
+						}
 					}
 				}
 			}
 
-			if braces > 1 {
-				return "literal-in-control-header"
+			if braces > 1 && last == "{" {
+				if typed && a.HeaderLiteral || named && (a.HeaderNamed || a.HeaderLiteral) {
+					return "literal-in-control-header"
+				}
 			}
 		}
 
